@@ -69,9 +69,10 @@ def queries_for(rng, n, beta, quick):
 def run_pair(job):
     fam, text, n, beta, eps, q = job
     base = text + "beta %s\n" % repr(beta)
-    rb = edlib.run(base, q, oracle=False, timeout=900)
+    plain = "".join(l + "\n" for l in base.split("\n") if l and not l.startswith("trunc"))   # reference run: truncateBlocks never called
+    rb = edlib.run(plain, q, oracle=False, timeout=900)
     rt = edlib.run(base + "trunc %s\n" % repr(eps), q, oracle=False, timeout=900)
-    rb.scenario, rt.scenario = base, base + "trunc %s\n" % repr(eps)
+    rb.scenario, rt.scenario = plain, base + "trunc %s\n" % repr(eps)
     model = (1, [], "")
     if not (rt.error or rt.crash) and rt.dumprec("VEC"):
         mq = []
@@ -337,6 +338,11 @@ def shrink(chk, job, kinds):
     return text2, q
 
 
+# (earlier tolerances, final tolerance)
+SEQS = [[((1e-2,), 0.0), ((1e-2, 1e-4), 1e-12), ((0.0,), 1e-2)],
+        [((1e-2,), 1e-8), ((1e-4,), 0.0), ((1e-12, 1e-2), 1e-4)],
+        [((1e-2, 0.0), 1e-4), ((1e-2,), 1e-4), ((1e-4, 1e-2, 1e-4), 1e-8)]]
+
 PRIORITY = ["crash", "error", "weights", "flag", "flag-keep", "eps0", "gf-bound", "avg-bound", "susc-bound", "chi-bound", "model"]
 
 
@@ -361,6 +367,12 @@ def run(chk):
                 q = queries_for(chk.rng, n, beta, quick)[0]
                 for eps in EPSS:
                     jobs.append((fam, text, n, beta, eps, q))
+                # histories: truncateBlocks called several times on one DensityMatrix (coarse tolerances first, then a finer
+                # one, or the other way round).  `trunc` lines inside the scenario text are executed in order before the
+                # final `trunc eps`; what must hold afterwards is exactly what holds after a single truncateBlocks(eps)
+                # (the run is compared with the untruncated one and with the model of a single call)
+                for pre, eps in SEQS[(len(jobs) // len(EPSS)) % len(SEQS)] if not quick else SEQS[(len(jobs) // len(EPSS)) % len(SEQS)][:2]:
+                    jobs.append((fam + "+history", text + "".join("trunc %s\n" % repr(e) for e in pre), n, beta, eps, q))
     with cf.ThreadPoolExecutor(max_workers=min(8, pv.NPROC)) as ex:
         results = list(ex.map(run_pair, jobs))
     nviol = 0
@@ -397,7 +409,7 @@ def replay(chk, path):
         return chk.finish()
     chk.prove(["extract/Extract_C09.vo", "extract/Extract_ED.vo"])
     edlib.binaries("real")
-    text = C09.strip_beta(rep["scenario"])
+    text = "\n".join(l for l in rep["scenario"].strip().split("\n") if not l.startswith("beta")) + "\n"   # keeps the `trunc` history lines
     r0 = edlib.run(rep["scenario"], [], oracle=False)
     job = (rep["family"], text, r0.n(), rep["beta"], rep["eps"], rep["queries"])
     _, rb, rt, m = run_pair(job)
